@@ -201,7 +201,7 @@ def frac_of_number_text(node: ast.Constant, source_segment: Optional[str] = None
         return Fraction(v)
     if isinstance(v, float):
         # exact decimal reading of the shortest repr (1E8 -> 100000000, 2.931 -> 2931/1000)
-        return Fraction(repr(v)) if 'e' not in repr(v) and 'inf' not in repr(v) and 'nan' not in repr(v) else Fraction(v)
+        return Fraction(repr(v)) if 'inf' not in repr(v) and 'nan' not in repr(v) else Fraction(v)
     raise Unsupported(f'non-numeric constant {v!r}')
 
 
